@@ -312,9 +312,10 @@ impl Schedule {
     /// C10 / C03: the vehicle leaves the formation of every non-depot node of the displaced block (it was listed
     /// there; the others keep their order)
     pub open spec fn ap_leaves(&self, v: VehicleIdx, p: Seq<NodeIdx>, tf2: Formations) -> bool {
-        forall|n: NodeIdx| moved_nd(&self.network, self.ap_displaced(v, p), n)
-            ==> has_vehicle(self.train_formations@[n].formation@, v)
-                && (#[trigger] tf2[n]).formation@ == self.train_formations@[n].formation@.remove(first_pos(self.train_formations@[n].formation@, v))
+        &&& forall|n: NodeIdx| moved_nd(&self.network, self.ap_displaced(v, p), n)
+                ==> has_vehicle((#[trigger] self.train_formations@[n]).formation@, v)
+        &&& forall|n: NodeIdx| moved_nd(&self.network, self.ap_displaced(v, p), n)
+                ==> (#[trigger] tf2[n]).formation@ == self.train_formations@[n].formation@.remove(first_pos(self.train_formations@[n].formation@, v))
     }
     /// C13: "formations elsewhere … stay untouched"
     pub open spec fn ap_elsewhere(&self, v: VehicleIdx, p: Seq<NodeIdx>, tf2: Formations) -> bool {
@@ -687,12 +688,15 @@ pub proof fn lemma_ap_formations(s: &Schedule, v: VehicleIdx, p: Seq<NodeIdx>, s
         assert(tf2[n] == tf1[n]);
         assert(tf1[n].formation@ == s.repl_seq(tf0[n].formation@, None, Some(vh)));
     }
-    assert forall|n: NodeIdx| moved_nd(net, d, n) implies has_vehicle(tf0[n].formation@, v)
-        && (#[trigger] tf2[n]).formation@ == tf0[n].formation@.remove(first_pos(tf0[n].formation@, v)) by {
+    assert forall|n: NodeIdx| moved_nd(net, d, n) implies has_vehicle((#[trigger] tf0[n]).formation@, v)
+        && tf2[n].formation@ == tf0[n].formation@.remove(first_pos(tf0[n].formation@, v)) by {
         assert(second);
         let j = choose|j: int| 0 <= j < d.len() && d[j] == n;
         assert(tf1[d[j]] == tf0[d[j]]);
         assert(tf2[n].formation@ == s.repl_seq(tf1[n].formation@, pv, rv) && s.repl_ok(tf1[n].formation@, pv, rv, n));
+    }
+    assert forall|n: NodeIdx| moved_nd(net, d, n) implies (#[trigger] tf2[n]).formation@ == tf0[n].formation@.remove(first_pos(tf0[n].formation@, v)) by {
+        assert(has_vehicle(tf0[n].formation@, v));
     }
     assert forall|n: NodeIdx| !moved_nd(net, p, n) && !moved_nd(net, d, n) implies #[trigger] tf2[n] == tf0[n] by {
         assert(tf1[n] == tf0[n]);
